@@ -6,7 +6,7 @@ import (
 )
 
 var nameClasses = map[string][]string{
-	"plain":   {"a", "b", "c", "foo", "main.go", "README.md", "Makefile", "x1"},
+	"plain":   {"a", "b", "c", "foo", "main.go", "README.md", "Makefile", "x1", "A", "makefile", "FOO", "Main.go", "\u212a", "k", "K"},
 	"bullets": {"- x", "* y", "a-b", "+", "-", "*", "#tag", "x # y", "a - b * c + d", "--", "-x", "todo - later", "a * b", "p + q", "#1 bug", "##"},
 	"blanks":  {" lead", "trail ", "in  side", "\ttab", " ", "a\tb", "  two"},
 	"unicode": {"caf\ufffd.txt", "日本語", "é", "😀", "a\u00a0b", "\u3000x", "x\u2028y", "\u0085n", "ｆｕｌｌ", "\u00a0"},
